@@ -182,8 +182,9 @@ MANIFEST_TEXT["C08"] = dict(
 HARNESSES["keys"] = dict(cfg="asan", sources=["harness/keys.cpp"], lib_only=ARGH_LIB)
 PROPS["C05"] = dict(
     units=[dict(harness="keys", mode="lookup", quick=dict(cases=2500), thorough=dict(cases=20000, shards=16)),
-           dict(harness="keys", mode="sublookup", quick=dict(cases=2500), thorough=dict(cases=20000, shards=8))],
-    rule="(mode sublookup: the same with 40 % of the specifications defined as sub-group arguments - Handler::addArgument(spec, "
+           dict(harness="keys", mode="sublookup", quick=dict(cases=2500), thorough=dict(cases=20000, shards=8)),
+           dict(harness="keys", mode="history", quick=dict(cases=2000), thorough=dict(cases=15000, shards=8))],
+    rule="(mode history: the same, and after half of the definitions every key and prefix is looked up once with getArgHandler() before the remaining arguments are defined - what a handler answers depends on its keys, not on earlier questions; mode sublookup: the same with 40 % of the specifications defined as sub-group arguments - Handler::addArgument(spec, "
          "subHandler, desc) - whose handler takes the value as positional argument; the key model is the same single key space) "
          "sets of 2..6 key specifications over a collision vocabulary (short keys {a,b,i,o}; long keys in, inp, inpu, input, "
          "input-file, input-format, out, outp, output; 7 spec notations) x abbreviations on/off x ALL definition orders for sets "
@@ -194,7 +195,7 @@ PROPS["C05"] = dict(
          "it; a one-character name is the short key) and identical outcomes for every definition order. Non-trivial = the set "
          "has a long key that is a proper prefix of >= 2 others, or a refused specification; distinct by case hash.",
     require_classes=dict(all=["key_conflict_refused", "nested_prefix_keys", "abbreviations_off", "all_permutations", "lookups",
-                              "sub_group_and_ordinary_arguments", "prefix_relation_across_the_two_kinds"]),
+                              "sub_group_and_ordinary_arguments", "prefix_relation_across_the_two_kinds", "lookups_between_definitions"]),
     assumptions=["a one-character name after '--' is the short key (key grammar); keys are looked up with a value because all destinations are int variables",
                  "sets of more than 4 specifications are evaluated in 6 sampled definition orders, not all"],
 )
